@@ -117,6 +117,26 @@ def rename_strings():
     return out
 
 
+def cut_strings():
+    """first labels around the 63-byte limit: label_with_suffix has to shorten the base on a
+    character boundary and must not cut an escape sequence"""
+    out = []
+    fillers = ["a", "é", "日", "\U0001F600", "\\", "\\.", "a\\", "\\\\", "é\\."]
+    for n in range(44, 70):
+        for f in fillers:
+            base = ""
+            while len((base + f).encode()) <= n:
+                base += f
+            base += "b" * (n - len(base.encode()))
+            for tail in ["._x._tcp.local.", ".local.", "", "\\.c._x._tcp.local."]:
+                out.append(base + tail)
+                out.append(base + " (9)" + tail)
+                out.append(base + " (4294967294)" + tail)
+                out.append(base + "-9" + tail)
+                out.append(base + "-99999" + tail)
+    return out
+
+
 def sweep_strings():
     """a multi-byte character, '.', '\\' inserted at every byte position of base names"""
     out = []
@@ -145,6 +165,8 @@ KINDS1 = ["v_dom", "v_svc", "v_host", "v_inst", "v_nc", "v_hc", "v_esc", "v_norm
 
 
 def k2_cases(s, tag, rng):
+    if tag == "cut":
+        return [Case("%s %s" % (k, hx(s)), tag) for k in ("v_nc", "v_hc", "v_lab")]
     cs = [Case("%s %s" % (k, hx(s)), tag) for k in KINDS1]
     cs.append(Case("v_len %s %d" % (hx(s), rng.choice([15, 15, 30, 0, 255, 1])), tag))
     return cs
@@ -352,7 +374,7 @@ def generate(rng, tier):
     quick = tier == "quick"
     cases = []
     strings = [(s, "boundary") for s in boundary_strings()] + [(s, "rename-forms") for s in rename_strings()] \
-        + [(s, "sweep") for s in sweep_strings()]
+        + [(s, "sweep") for s in sweep_strings()] + [(s, "cut") for s in cut_strings()]
     for _ in range(300 if quick else 6000):
         strings.append((rand_string(rng), "random"))
     if not quick:
